@@ -15,7 +15,7 @@ func (s *Server) PrepareRename(ctx context.Context, params *protocol.PrepareRena
 	}
 
 	journal, _ := parser.Parse(doc)
-	target := findDefinitionTarget(journal, params.Position)
+	target := findDefinitionTarget(journal, newColumnMapper(doc), params.Position)
 	if target == nil || target.context == DefContextUnknown {
 		return nil, nil
 	}
@@ -30,14 +30,14 @@ func (s *Server) Rename(ctx context.Context, params *protocol.RenameParams) (*pr
 	}
 
 	journal, _ := parser.Parse(doc)
-	target := findDefinitionTarget(journal, params.Position)
+	target := findDefinitionTarget(journal, newColumnMapper(doc), params.Position)
 	if target == nil || target.context == DefContextUnknown {
 		return nil, nil
 	}
 
-	resolved, primaryPath := s.resolvedWithPrimaryPath(params.TextDocument.URI)
+	resolved, primaryPath, mappers := s.resolvedWithPrimaryPath(params.TextDocument.URI, doc)
 
-	locations := findReferences(target, resolved, primaryPath, journal, true)
+	locations := findReferences(target, resolved, primaryPath, journal, true, mappers)
 	if len(locations) == 0 {
 		return nil, nil
 	}
